@@ -121,3 +121,21 @@ Theorem C18_y_cuttable_iff : forall r y q,
   (ymin r < y /\ y < ymax r /\ q * rw r < y - ymin r /\ q * rw r < ymax r - y).
 Proof. exact y_cuttable_iff. Qed.
 Print Assumptions C18_y_cuttable_iff.
+
+(* gridding: rows*cols pieces that tile the rectangle and inherit its attributes (proved in Refine/GridFacts.v) *)
+From FrameModel Require Import Refine.GridFacts.
+Theorem C18_grid_count : forall d nrows ncols g,
+  rectangle_grid d nrows ncols = Some g -> List.length g = (nrows * ncols)%nat.
+Proof. exact grid_count. Qed.
+Print Assumptions C18_grid_count.
+
+Theorem C18_grid_tiles : forall d nrows ncols g, wf d -> rectangle_grid d nrows ncols = Some g -> tiles g d.
+Proof. exact grid_tiles. Qed.
+Print Assumptions C18_grid_tiles.
+
+Theorem C18_grid_attrs : forall d nrows ncols g,
+  rectangle_grid d nrows ncols = Some g ->
+  Forall (fun c => same_attrs d c /\ rloc c = NOPOLY /\
+                   rw c = rw d / ofnat ncols /\ rh c = rh d / ofnat nrows) g.
+Proof. exact grid_attrs. Qed.
+Print Assumptions C18_grid_attrs.
